@@ -267,7 +267,8 @@ func buildEntries(p *pair, env0 *stateEnv) (*stateEnv, string) {
 	if rg.Accel {
 		pr := b.send(owner, types.AcceleratorContract, znn, new(big.Int).Set(constants.ProjectCreationAmount),
 			definition.ABIAccelerator.PackMethodPanic(definition.CreateProjectMethodName, "c09 project", "a project", "zenon.network", big8(100), big8(1000)))
-		add("accelerator", pr.Hash)
+		pr2 := b.send(stranger, types.AcceleratorContract, znn, new(big.Int).Set(constants.ProjectCreationAmount),
+			definition.ABIAccelerator.PackMethodPanic(definition.CreateProjectMethodName, "c09 project 2", "a project without phases", "zenon.network", big8(50), big8(500)))
 		b.send(g.Pillar5, types.AcceleratorContract, znn, big8(2000), definition.ABICommon.PackMethodPanic(definition.DonateMethodName))
 		b.step()
 		b.send(g.Pillar5, types.AcceleratorContract, qsr, big8(20000), definition.ABICommon.PackMethodPanic(definition.DonateMethodName))
@@ -276,12 +277,17 @@ func buildEntries(p *pair, env0 *stateEnv) (*stateEnv, string) {
 			b.send(k, types.AcceleratorContract, znn, big.NewInt(0), definition.ABICommon.PackMethodPanic(definition.VoteByNameMethodName, pr.Hash, name, uint8(0)))
 		}
 		b.step()
+		for _, k := range []*wallet.KeyPair{g.Pillar1, g.Pillar2, g.Pillar3} {
+			b.send(k, types.AcceleratorContract, znn, big.NewInt(0), definition.ABICommon.PackMethodPanic(definition.VoteByProdAddressMethodName, pr2.Hash, uint8(0)))
+		}
+		b.step()
 		b.steps(updateMinMomentums)
 		b.send(stranger, types.AcceleratorContract, znn, big.NewInt(0), definition.ABIAccelerator.PackMethodPanic(definition.UpdateMethodName))
 		b.step()
 		ph := b.send(owner, types.AcceleratorContract, znn, big.NewInt(0),
 			definition.ABIAccelerator.PackMethodPanic(definition.AddPhaseMethodName, pr.Hash, "phase 1", "first phase", "zenon.network", big8(10), big8(100)))
-		add("accelerator", ph.Hash) // first = current phase id, second = project id
+		// ids: owner's active project (phase in voting), its phase, stranger's active project without phases
+		env.IDs["accelerator"] = []types.Hash{pr.Hash, ph.Hash, pr2.Hash}
 		b.step()
 	}
 	if rg.Htlc {
@@ -293,8 +299,11 @@ func buildEntries(p *pair, env0 *stateEnv) (*stateEnv, string) {
 		soon := int64(g.EmbeddedGenesis.GenesisTimestampSec) + 12*3600
 		h2 := b.send(owner, types.HtlcContract, env.Custom, big.NewInt(100), definition.ABIHtlc.PackMethodPanic(definition.CreateHtlcMethodName, stranger.Address, soon, uint8(definition.HashTypeSHA256), uint8(255), s256[:]))
 		b.step()
-		add("htlc", h2.Hash)
-		add("htlc", h1.Hash)
+		now := p.P.Frontier().Timestamp.Unix()
+		h3 := b.send(owner, types.HtlcContract, znn, big8(1), definition.ABIHtlc.PackMethodPanic(definition.CreateHtlcMethodName, stranger.Address, now+25, uint8(definition.HashTypeSHA3), uint8(32), lock))
+		b.step()
+		// ids: live long-term entry, expired entry, entry expiring after 12 hours
+		env.IDs["htlc"] = []types.Hash{h1.Hash, h3.Hash, h2.Hash}
 	}
 	// the bridge and liquidity methods are in the tables of both the bridge regime and (cumulative tables) the htlc regime
 	if rg.Bridge || rg.Htlc {
